@@ -185,6 +185,8 @@ def run(check):
     if not check.has_failing():
         duplicate_names_part(check)
     if not check.has_failing():
+        repeated_name_split_part(check)
+    if not check.has_failing():
         overlap_part(check)
     if not check.has_failing():
         generic_names_part(check)
@@ -448,6 +450,51 @@ def duplicate_names_part(check):
                             "Account (%s: %s)" % (lang, fn, witness["difference"]),
                             case=witness, impl={"a": outa, "b": outb}, failing_input=True)
             return
+
+
+def repeated_name_split_part(check):
+    """single-file mode: how the same items are split over source files does not matter - also when a name is declared more than
+    once (one definition per `cfg` branch, the same name in two modules: legal Rust, typeshare reads the text and sees both).  The
+    items written into one file, in order, and the same items written into one file each and delivered in that order give the same
+    definitions (the relative order of equally named definitions in the split layout is the arrival order - the recorded finding
+    duplicate-type-names-arrival-order -, so the outputs are compared as multisets of lines)"""
+    variants = [
+        ("cfg-branches", ["#[cfg(feature = \"fast\")]\n#[typeshare]\npub struct Handle { pub fd: u32 }\n",
+                          "#[cfg(not(feature = \"fast\"))]\n#[typeshare]\npub struct Handle { pub name: String }\n",
+                          "#[typeshare]\npub struct Other { pub h: Handle }\n"]),
+        ("two-modules", ["pub mod v1 {\n    #[typeshare]\n    pub struct Handle { pub fd: u32 }\n}\n",
+                         "pub mod v2 {\n    #[typeshare]\n    pub enum Handle { Open, Closed }\n}\n",
+                         "#[typeshare]\npub type Handles = Vec<Handle>;\n"]),
+        ("same-item-twice", ["#[typeshare]\npub struct Handle { pub fd: u32 }\n", "#[typeshare]\npub struct Handle { pub fd: u32 }\n"]),
+    ]
+    for k, (label, parts) in enumerate(variants):
+        for lang in (LANGS if check.thorough else [LANGS[(2 * k + j) % 6] for j in range(3)]):
+            outs = {}
+            for layout in ("one", "split"):
+                with Scratch() as sc:
+                    if layout == "one":
+                        sc.write("ws/app/src/lib.rs", "\n".join(parts))
+                        env = {}
+                    else:
+                        for j, ptxt in enumerate(parts):
+                            sc.write("ws/app/src/f%d.rs" % j, ptxt)
+                        env = {"TYPESHARE_VERIF_ORDER": ",".join(str(j) for j in range(len(parts)))}
+                    r, files = run_once(sc, lang, False, env)
+                    outs[layout] = (r["rc"], files)
+            check.saw(("repeated-name-split", label, lang), nontrivial=True)
+            check.count("repeated-name-split-" + label)
+            # the relative order of the equally named definitions in the split layout is the arrival order (recorded finding):
+            # what is compared is the multiset of output lines
+            lines = lambda o: (o[0], {f: sorted(t.splitlines()) for f, t in o[1].items()})
+            if lines(outs["one"]) != lines(outs["split"]):
+                (rc1, o1), (rc2, o2) = outs["one"], outs["split"]
+                fn = next((f for f in sorted(set(o1) | set(o2)) if o1.get(f) != o2.get(f)), None)
+                check.violation("%s, single-file mode: the same items (%s: a name declared more than once) written into one source file and "
+                                "into one file each give different definitions (exit %s / %s%s)"
+                                % (lang, label, rc1, rc2, ": " + run_diff(o1.get(fn, ""), o2.get(fn, "")) if fn else ""),
+                                case={"lang": lang, "items": parts, "layouts": ["one file", "one file per item"]},
+                                impl={"one": o1, "split": o2}, failing_input=True)
+                return
 
 
 def overlap_part(check):
